@@ -77,7 +77,76 @@ func (ex *Exec) call(s *State, fr *Frame, c *ssa.Call, k cont) {
 		ex.callFunc(s, fr, c, fn, fv.Bindings, args, k)
 		return
 	}
+	if len(args) == 1 {
+		if body, ok := args[0].(FuncV); ok {
+			if bf, ok := body.Fn.(*ssa.Function); ok && bf != nil {
+				ex.iteratorCall(s, fr, c, fv, body, bf, k)
+				return
+			}
+		}
+	}
 	ex.abstractCall(s, fr, c, fv, args, k)
+}
+
+// iteratorCall: an abstract push iterator (the result of Tree.All/Backward called through the
+// interface) is handed the synthetic body closure of a range-over-func loop. The iterator is
+// assumed to obey the iterator protocol that C14 proves for this package's own iterators: it
+// calls the body sequentially, any number of times, and never again after a call returned false;
+// and (like every yield in this model) neither it nor the callback writes the tree.
+// The body closure is a function under contract:
+//   requires     - holds at the first call (proved here) and, by the body's own
+//                  ensures[reentry] implies(result, <requires>), at every later one
+//   closure_inv  - holds when no call has been made (proved here) and after every complete call
+//                  (proved at the body's exits); assumed here for the state the loop leaves behind
+// The cells the body writes and the ghost 'stopped' flag are havocked.
+func (ex *Exec) iteratorCall(s *State, fr *Frame, c *ssa.Call, it FuncV, body FuncV, bf *ssa.Function, k cont) {
+	ct, name := ex.contractFor(bf)
+	if ct == nil || len(ct.ClosureInv) == 0 {
+		ex.unsupported("range-over-func body %s has no contract with a closure_inv clause", ex.calleeName(bf))
+	}
+	caller := normName(fr.fn.RelString(ex.prog.SSA.Pkg))
+	mkVars := func() map[string]Value {
+		vars := map[string]Value{}
+		for i, fv := range bf.FreeVars {
+			n := strings.ReplaceAll(fv.Name(), "$", "_")
+			if pv, ok := body.Bindings[i].(PtrV); ok && pv.Kind == PCell {
+				vars[n] = s.cells[pv.Cell]
+			} else {
+				vars[n] = body.Bindings[i]
+			}
+		}
+		return vars
+	}
+	env := &SpecEnv{ex: ex, cur: s, old: s, vars: mkVars(), fn: bf, calleeMode: true}
+	anchor := ex.prog.SrcAnchor(c.Pos())
+	for i, r := range ct.Requires {
+		ex.check(s, "requires", fmt.Sprintf("%s/%s/iter:%s@%s/requires#%d", ex.layer, caller, name, anchor, i+1), env.evalProve(r.Expr), c.Pos(), r.Src)
+	}
+	for i, r := range ct.ClosureInv {
+		ex.check(s, "requires", fmt.Sprintf("%s/%s/iter:%s@%s/closure_inv#%d", ex.layer, caller, name, anchor, i+1), env.evalProve(r.Expr), c.Pos(), r.Src)
+	}
+	// havoc what the body writes
+	for i, fv := range bf.FreeVars {
+		pv, ok := body.Bindings[i].(PtrV)
+		if !ok || pv.Kind != PCell {
+			continue
+		}
+		written := false
+		for _, r := range *fv.Referrers() {
+			if st, ok := r.(*ssa.Store); ok && st.Addr == fv {
+				written = true
+			}
+		}
+		if written {
+			s.cells[pv.Cell] = ex.fresh(s, "iter."+fv.Name(), ex.subst(pv.Elem))
+		}
+	}
+	s.ghost["stopped"] = BoolV{T: ex.st.Fresh("stopped.iter", SBool)}
+	env2 := &SpecEnv{ex: ex, cur: s, old: s, vars: mkVars(), fn: bf, calleeMode: true}
+	for _, r := range ct.ClosureInv {
+		s.assume(env2.evalAssume(r.Expr))
+	}
+	k(s, fr, nil)
 }
 
 func (ex *Exec) callFunc(s *State, fr *Frame, c *ssa.Call, f *ssa.Function, bindings []Value, args []Value, k cont) {
@@ -1078,6 +1147,10 @@ func (ex *Exec) invoke(s *State, fr *Frame, c *ssa.Call, recv Value, m *types.Fu
 		rv.Typ = obj.Type()
 		ex.castObligation(s, fr, rv.T, rv.Typ, c)
 		ex.callFunc(s, fr, c, fn, nil, []Value{rv}, k)
+		return
+	case "All", "Backward":
+		// Tree[K,V] behind the interface: an abstract push iterator (see iteratorCall)
+		k(s, fr, FuncV{Name: "seq." + m.Name()})
 		return
 	case "Transform":
 		// abstract codec (BinaryComparableKey hypothesis): two fresh byte slices with equal
